@@ -146,6 +146,7 @@ func vcutActive() bool                  { return false }
 func vrandPush(v uint32)                {}
 func vclockWithin(d int64)              {}
 func vclockFreeze()                     {}
+func vsymbolic() bool                   { return true }
 `
 	}
 	return "package " + pkg + `
@@ -251,6 +252,7 @@ func vcutActive() bool        { return false }
 func vrandPush(v uint32)      {}
 func vclockWithin(d int64)    {}
 func vclockFreeze()           {}
+func vsymbolic() bool         { return false }
 func vparam(name string, def int) int {
 	vload()
 	if v, ok := vparams[name]; ok {
